@@ -208,6 +208,23 @@ theorem targetLoop_clean (accept isBcb : Bool) (orc : Nat → Outcome) (pres : N
       simp only [ho]
       exact targetLoop_clean accept isBcb orc pres results ts (ix + 1) _ _ hrest
 
+/-- a defective target at any position makes the target list defective -/
+theorem anyTargetDefect_index (orc : Nat → Outcome) (pres : Nat → Bool) (results : List (List Nat)) :
+    ∀ (ts : List Nat) (ix j : Nat) (hj : j < ts.length),
+      targetDefect orc pres results (ix + j) ts[j] = true → anyTargetDefect orc pres results ts ix = true
+  | [], _, j, hj, _ => by simp at hj
+  | t :: ts, ix, 0, _, h => by
+    simp only [anyTargetDefect, Bool.or_eq_true]
+    left
+    simpa using h
+  | t :: ts, ix, j + 1, hj, h => by
+    simp only [anyTargetDefect, Bool.or_eq_true]
+    right
+    apply anyTargetDefect_index orc pres results ts (ix + 1) j (by simpa using hj)
+    have e : ix + (j + 1) = ix + 1 + j := by omega
+    rw [e] at h
+    simpa using h
+
 /-- a defect stays a defect when fewer blocks are present -/
 theorem anyTargetDefect_mono (orc : Nat → Outcome) (pres pres' : Nat → Bool) (results : List (List Nat))
     (hsub : ∀ n, pres' n = true → pres n = true) :
